@@ -472,6 +472,9 @@ class Cache:
         return len(self.cache)
 
     def __enter__(self):
+        # dump values which are already stale before we stop
+        # checking, otherwise `__exit__` would mark them as current
+        self.verify()
         self._lock += 1
 
     def __exit__(self, *args):
